@@ -15,8 +15,9 @@ GRAPHS = [["u", "urn:g1"], ["u", "urn:g2"]]
 
 
 def data_triples():
-    s = st.sampled_from(NODES)
-    o = st.one_of(st.sampled_from(NODES), st.sampled_from(LITS), st.sampled_from(LITS[:3]))
+    # (now and then a predicate IRI also stands as subject / object, so that patterns repeating a variable across positions have matches)
+    s = st.one_of(st.sampled_from(NODES), st.sampled_from(NODES), st.sampled_from(NODES), st.sampled_from(NODES + PREDS))
+    o = st.one_of(st.sampled_from(NODES), st.sampled_from(LITS), st.sampled_from(LITS[:3]), st.sampled_from(NODES + PREDS))
     return st.lists(st.tuples(s, st.sampled_from(PREDS), o).map(list), max_size=8, unique_by=repr)
 
 
